@@ -396,6 +396,111 @@ def _asm_calls(f: Func):
             yield n, n.args[0].value
 
 
+def _asm_sites(fl: Flow):
+    """(site, literal) of every inline-asm construction the walker reaches: in the function itself or in a helper it walked through"""
+    for s in fl.sites:
+        n = s.node
+        if s.reachable and isinstance(n, ast.Call) and callee_name(n) == "InlineAsmOp" and n.args and isinstance(n.args[0], ast.Constant) and isinstance(n.args[0].value, str):
+            yield s, n.args[0].value
+
+
+MANY = 9
+
+
+def _write_counts(repo: Repo, f: Func, stmts: list[ast.stmt], depth: int = 0) -> set[int]:
+    """how many `csrw` constructions one execution of `stmts` can perform: the set of possible counts over all paths (MANY = inside a
+    nested loop / comprehension). asserts do not branch; raise ends a path without a count; helpers are followed"""
+    fall, done = _wc(repo, f, stmts, depth)
+    return fall | done
+
+
+def _wc(repo: Repo, f: Func, stmts: list[ast.stmt], depth: int) -> tuple[set[int], set[int]]:
+    """(counts of the paths that fall off the end, counts of the paths ended by return / continue / break)"""
+
+    def add(xs: set[int], ys: set[int]) -> set[int]:
+        return {min(MANY, x + y) for x in xs for y in ys}
+
+    def expr_counts(e: ast.AST) -> set[int]:
+        total = {0}
+        stack = [e]
+        while stack:
+            n = stack.pop()
+            if isinstance(n, (ast.ListComp, ast.SetComp, ast.DictComp, ast.GeneratorExp, ast.Lambda)):
+                if _write_counts_expr_has(repo, f, n, depth):
+                    total = {MANY}
+                continue
+            if isinstance(n, ast.IfExp):
+                total = add(total, expr_counts(n.body) | expr_counts(n.orelse))
+                stack.append(n.test)
+                continue
+            if isinstance(n, ast.Call):
+                total = add(total, _call_counts(repo, f, n, depth))
+            stack.extend(ast.iter_child_nodes(n))
+        return total
+
+    acc = {0}
+    done: set[int] = set()
+    for st in stmts:
+        if not acc:
+            break
+        if isinstance(st, (ast.FunctionDef, ast.AsyncFunctionDef, ast.ClassDef, ast.Pass, ast.Import, ast.ImportFrom, ast.Global, ast.Nonlocal, ast.Assert)):
+            continue
+        if isinstance(st, ast.Raise):
+            return set(), done  # the path ends in an exception
+        if isinstance(st, (ast.Return, ast.Continue, ast.Break)):
+            c = expr_counts(st.value) if isinstance(st, ast.Return) and st.value is not None else {0}
+            return set(), done | add(acc, c)
+        if isinstance(st, ast.If):
+            t = expr_counts(st.test)
+            fa, da = _wc(repo, f, st.body, depth)
+            fb, db = _wc(repo, f, st.orelse, depth) if st.orelse else ({0}, set())
+            base = add(acc, t)
+            done |= add(base, da | db)
+            acc = add(base, fa | fb)
+            continue
+        if isinstance(st, (ast.For, ast.While)):
+            fb_, db_ = _wc(repo, f, st.body, depth)
+            if any(c > 0 for c in fb_ | db_):
+                acc = {MANY}
+            continue
+        if isinstance(st, ast.Try):
+            parts = [st.body, *[h.body for h in st.handlers], st.orelse, st.finalbody]
+            if any(c > 0 for part in parts for c in _write_counts(repo, f, part, depth)):
+                acc = {MANY}
+            continue
+        if isinstance(st, ast.With):
+            fw, dw = _wc(repo, f, st.body, depth)
+            done |= add(acc, dw)
+            acc = add(acc, fw)
+            continue
+        acc = add(acc, expr_counts(st))
+    return acc, done
+
+
+def _write_counts_expr_has(repo: Repo, f: Func, e: ast.AST, depth: int) -> bool:
+    return any(isinstance(n, ast.Call) and any(c > 0 for c in _call_counts(repo, f, n, depth)) for n in ast.walk(e))
+
+
+def _call_counts(repo: Repo, f: Func, call: ast.Call, depth: int) -> set[int]:
+    if callee_name(call) == "InlineAsmOp" and call.args and isinstance(call.args[0], ast.Constant) and isinstance(call.args[0].value, str):
+        m = CSR_ASM.match(call.args[0].value)
+        return {1} if m is not None and m.group(1) == "csrw" else {0}
+    if depth >= 3 or not isinstance(call.func, ast.Name):
+        return {0}
+    h = None
+    try:
+        h = f.nested(call.func.id)
+    except AnalysisError:
+        h = f.module.funcs.get(call.func.id)
+        if h is None and call.func.id in f.module.imports:
+            obj = repo.lookup_dotted(f.module.imports[call.func.id])
+            h = obj if isinstance(obj, Func) else None
+    if h is None or h.node is f.node:
+        return {0}
+    c = _write_counts(repo, h, h.node.body, depth + 1)
+    return c or {0}
+
+
 def _definers(repo: Repo, name: str) -> list[Func]:
     out = []
     for c in repo.all_classes():
@@ -432,12 +537,13 @@ def lowering(repo: Repo, chk: Check) -> None:
     n_csr = 0
     for kind, items in (("setup", "field_items"), ("launch", "launch_field_items")):
         for f in _definers(repo, f"lower_acc_{kind}"):
-            asm = [(n, s) for n, s in _asm_calls(f) if CSR_ASM.match(s)]
-            if not asm:
+            fl = Flow(f, repo)
+            asm = [(x, lit) for x, lit in _asm_sites(fl) if CSR_ASM.match(lit)]
+            in_source = any(CSR_ASM.match(lit) for _, lit in _asm_calls(f))
+            if not asm and not in_source:
                 continue  # instruction-configured accelerators: C04.rocc-pairs
             n_csr += 1
             chk.analysed(f.key)
-            fl = Flow(f, repo)
             key = f"{f.module.relpath}:{f.qualname}"
             params = [p for p in f.params if p not in ("self", "cls")]
             if len(params) < 2:
@@ -447,59 +553,65 @@ def lowering(repo: Repo, chk: Check) -> None:
             if not loops:
                 _keyed_lowering(chk, f, fl, key, op_p, acc_p)
                 continue
+            if not asm:
+                raise AnalysisError(f"{f.where}: the CSR accesses of this lowering are not reached by the walker")
             if len(loops) != 1 or not (isinstance(loops[0].target, ast.Tuple) and len(loops[0].target.elts) == 2 and all(isinstance(x, ast.Name) for x in loops[0].target.elts)):
                 chk.bad("C04.setup-lowering", f"{key}:loop", f.where, f"expected exactly one `for field, val in {op_p}.iter_params()` loop, found {len(loops)}")
                 continue
             loop = loops[0]
             fname, vname = (x.id for x in loop.target.elts)  # type: ignore[union-attr]
-            inloop = [(n, s) for n, s in asm if _enclosing_chain(loop, n) is not None]
-            outside = [(n, s) for n, s in asm if _enclosing_chain(loop, n) is None]
-            writes = [(n, s) for n, s in inloop if CSR_ASM.match(s).group(1) == "csrw"]  # type: ignore[union-attr]
+            inloop = [(x, lit) for x, lit in asm if any(l is loop for l in x.loops)]
+            outside = [(x, lit) for x, lit in asm if not any(l is loop for l in x.loops)]
+            writes = [(x, lit) for x, lit in inloop if CSR_ASM.match(lit).group(1) == "csrw"]  # type: ignore[union-attr]
             where = f"{f.module.relpath}:{loop.lineno}"
-            if len(writes) != 1 or outside:
+            # exactly one write on every path through one iteration (helpers followed, asserts do not branch)
+            counts = _write_counts(repo, f, loop.body)
+            if not writes or outside:
                 chk.bad("C04.setup-lowering", f"{key}:one-write", where,
                         f"{len(writes)} csrw construction(s) per field inside the loop and {len(outside)} CSR access(es) outside it; exactly one write per configured field is required")
                 continue
-            call, s = writes[0]
-            chain = _enclosing_chain(loop, call) or []
-            cond = [n for n in chain[1:] if isinstance(n, (ast.If, ast.IfExp, ast.While, ast.For, ast.Try, ast.comprehension, ast.ListComp, ast.GeneratorExp))]
-            chk.result(not cond, "C04.setup-lowering", f"{key}:one-write", f"{f.module.relpath}:{call.lineno}",
-                       "one unconditional csrw per iteration of the field loop",
-                       f"the csrw is nested in {[type(n).__name__ for n in cond]} inside the field loop: some fields get no write or several")
-            m = CSR_ASM.match(s)
-            assert m is not None
-            ai, vi = int(m.group(2)), int(m.group(3))
-            ops = kwarg(call, "operands_", 2) or kwarg(call, "operands", 2)
-            if not isinstance(ops, (ast.List, ast.Tuple)) or len(ops.elts) != 2 or {ai, vi} != {0, 1}:
-                chk.bad("C04.setup-lowering", f"{key}:operands", f"{f.module.relpath}:{call.lineno}", f"csrw operand list not understood: {ast.unparse(ops) if ops is not None else None}")
+            chk.result(counts == {1}, "C04.setup-lowering", f"{key}:one-write", where,
+                       "one csrw on every path through an iteration of the field loop",
+                       f"an iteration of the field loop performs {sorted('several' if c == MANY else c for c in counts) if counts else 'no'} csrw construction(s) depending on the path: "
+                       "some fields get no write or several")
+            if counts != {1}:
                 continue
-            site = next((x for x in fl.sites if x.node is call), None)
-            if site is None:
-                raise AnalysisError(f"{f.where}: csrw call site not reached by the walker")
-            acone = fl.cone(ops.elts[ai], site)
-            vcone = fl.cone(ops.elts[vi], site)
-            want = [f"dict({acc_p}.{items}())[$k]", f"dict($d.{items}())[$k]"]
-            hits = []
-            for t in want:
-                for _, mm in norm.find(T(t), acone):
-                    hits.append(mm)
-            own = [mm for mm in hits if fname in norm.free_names(mm["k"])]
-            chk.result(bool(own), "C04.setup-lowering", f"{key}:address", f"{f.module.relpath}:{call.lineno}",
-                       f"address operand ${ai} is dict({acc_p}.{items}())[{fname}] — the declared address of the loop's own field",
-                       f"address operand ${ai} does not derive from {acc_p}.{items}() indexed by the loop's field name `{fname}`: {ast.unparse(acone)[:200]}")
-            other = "launch_field_items" if items == "field_items" else "field_items"
-            wrong = norm.contains(acone, T(f"$d.{other}()"))
-            chk.result(not wrong, "C04.setup-lowering", f"{key}:table", f"{f.module.relpath}:{call.lineno}",
-                       f"the {kind} lowering consults only {items}()", f"the {kind} lowering takes addresses from {other}()")
-            vn = norm.free_names(vcone)
-            elem = norm.contains(vcone, T(f"__elem__({op_p}.iter_params())[1]"))
-            const_only = not (vname in vn or elem)
-            chk.result(not const_only, "C04.setup-lowering", f"{key}:value", f"{f.module.relpath}:{call.lineno}",
-                       f"value operand ${vi} derives from the loop's own value `{vname}`",
-                       f"value operand ${vi} does not depend on the loop's value `{vname}`: {ast.unparse(vcone)[:200]}")
-            crossed = fname in norm.free_names(fl.cone(ops.elts[vi], site, inline=0)) and vname not in vn
-            if crossed:
-                chk.bad("C04.setup-lowering", f"{key}:roles", f"{f.module.relpath}:{call.lineno}", "address and value operands are exchanged")
+            # the alternatives of an if/else each build their own csrw: every one of them is judged (keys numbered from the second on)
+            for wi, (site, s_lit) in enumerate(writes):
+                sfx = "" if wi == 0 else f"#{wi + 1}"
+                call = site.node
+                assert isinstance(call, ast.Call)
+                m = CSR_ASM.match(s_lit)
+                assert m is not None
+                ai, vi = int(m.group(2)), int(m.group(3))
+                ops = kwarg(call, "operands_", 2) or kwarg(call, "operands", 2)
+                if not isinstance(ops, (ast.List, ast.Tuple)) or len(ops.elts) != 2 or {ai, vi} != {0, 1}:
+                    chk.bad("C04.setup-lowering", f"{key}:operands{sfx}", f"{f.module.relpath}:{call.lineno}", f"csrw operand list not understood: {ast.unparse(ops) if ops is not None else None}")
+                    continue
+                acone = fl.cone(ops.elts[ai], site)
+                vcone = fl.cone(ops.elts[vi], site)
+                want = [f"dict({acc_p}.{items}())[$k]", f"dict($d.{items}())[$k]"]
+                hits = []
+                for t in want:
+                    for _, mm in norm.find(T(t), acone):
+                        hits.append(mm)
+                own = [mm for mm in hits if fname in norm.free_names(mm["k"])]
+                chk.result(bool(own), "C04.setup-lowering", f"{key}:address{sfx}", f"{f.module.relpath}:{call.lineno}",
+                           f"address operand ${ai} is dict({acc_p}.{items}())[{fname}] — the declared address of the loop's own field",
+                           f"address operand ${ai} does not derive from {acc_p}.{items}() indexed by the loop's field name `{fname}`: {ast.unparse(acone)[:200]}")
+                other = "launch_field_items" if items == "field_items" else "field_items"
+                wrong = norm.contains(acone, T(f"$d.{other}()"))
+                chk.result(not wrong, "C04.setup-lowering", f"{key}:table{sfx}", f"{f.module.relpath}:{call.lineno}",
+                           f"the {kind} lowering consults only {items}()", f"the {kind} lowering takes addresses from {other}()")
+                vn = norm.free_names(vcone)
+                elem = norm.contains(vcone, T(f"__elem__({op_p}.iter_params())[1]"))
+                const_only = not (vname in vn or elem)
+                chk.result(not const_only, "C04.setup-lowering", f"{key}:value{sfx}", f"{f.module.relpath}:{call.lineno}",
+                           f"value operand ${vi} derives from the loop's own value `{vname}`",
+                           f"value operand ${vi} does not depend on the loop's value `{vname}`: {ast.unparse(vcone)[:200]}")
+                crossed = fname in norm.free_names(fl.cone(ops.elts[vi], site, inline=0)) and vname not in vn
+                if crossed:
+                    chk.bad("C04.setup-lowering", f"{key}:roles{sfx}", f"{f.module.relpath}:{call.lineno}", "address and value operands are exchanged")
             # program order
             rets = [n for n in ast.walk(f.node) if isinstance(n, ast.Return) and n.value is not None]
             bad_order = []
